@@ -463,7 +463,8 @@ class Check:
         self.t0 = time.time()
         self.known, self.fixed = load_known(prop)
         self.known_hit = {}
-        self.viol = {}          # key -> replay record
+        self.viol = {}          # key -> replay record (capped)
+        self.all_keys = set()   # every unlisted violation key (uncapped)
         self.viol_count = 0
         self.drifts = []
         self.cov = {"evaluations": 0, "distinct_nontrivial": 0, "states": 0, "transitions": 0,
@@ -492,6 +493,7 @@ class Check:
             self.known_hit.setdefault(key, 0)
             self.known_hit[key] += 1
             return
+        self.all_keys.add(key)
         if key not in self.viol and len(self.viol) < 50:
             self.viol[key] = record
 
